@@ -5,6 +5,7 @@ import (
 	"fmt"
 	"io"
 	"runtime"
+	"sort"
 	"sync"
 	"sync/atomic"
 	"time"
@@ -13,6 +14,10 @@ import (
 	"tunnox-core/internal/client/tunnel"
 	"tunnox-core/internal/config"
 	"tunnox-core/internal/core/dispose"
+	"tunnox-core/internal/core/events"
+	"tunnox-core/internal/core/idgen"
+	"tunnox-core/internal/core/storage"
+	"tunnox-core/internal/core/types"
 	"tunnox-core/internal/core/storage/memory"
 	"tunnox-core/internal/packet"
 	"tunnox-core/internal/protocol/session"
@@ -84,6 +89,16 @@ func newLatchRig(kind string, free bool, seed int64) *latchRig {
 			}},
 			{"CloseWithError", func() error { return d.CloseWithError() }},
 			{"GetErrors", func() error { d.GetErrors(); return nil }},
+			{"AddCleanHandler", func() error { d.AddCleanHandler(func() error { return nil }); return nil }},
+			{"SetCtx", func() error { d.SetCtx(ctx, nil); d.SetCtxWithNoOpOnClose(ctx); return nil }},
+			{"Ctx", func() error {
+				select {
+				case <-d.Ctx().Done():
+				default:
+				}
+				return nil
+			}},
+			{"Close", func() error { d.Close(); return nil }},
 		}
 	case "manager":
 		m := dispose.NewManager("verif", ctx)
@@ -99,6 +114,9 @@ func newLatchRig(kind string, free bool, seed int64) *latchRig {
 				return nil
 			}},
 			{"Close", func() error { return m.Close() }},
+			{"AddCleanHandler", func() error { m.AddCleanHandler(func() error { return nil }); return nil }},
+			{"SetName", func() error { m.SetName("x"); m.GetName(); return nil }},
+			{"Initialize", func() error { m.Initialize(ctx); return nil }},
 		}
 	case "stream":
 		rd := &rw{memConn: newMemConn("rd"), rec: r.rec, what: "closeReader"}
@@ -118,6 +136,18 @@ func newLatchRig(kind string, free bool, seed int64) *latchRig {
 			{"ReadExact", func() error { _, err := sp.ReadExact(1); return err }},
 			{"ReadAvailable", func() error { _, err := sp.ReadAvailable(8); return err }},
 			{"CloseWithResult", func() error { sp.CloseWithResult(); return nil }},
+			{"WritePacket:command", func() error {
+				_, err := sp.WritePacket(&packet.TransferPacket{PacketType: packet.JsonCommand, CommandPacket: &packet.CommandPacket{CommandId: "c"}}, true, 0)
+				return err
+			}},
+			{"WritePacket:ratelimited", func() error {
+				_, err := sp.WritePacket(&packet.TransferPacket{PacketType: packet.TunnelData, Payload: []byte("abc")}, false, 1024)
+				return err
+			}},
+			{"WritePacket:nil", func() error { _, err := sp.WritePacket(nil, false, 0); return err }},
+			{"ReadExactZeroCopy", func() error { _, err := sp.ReadExactZeroCopy(4); return err }},
+			{"GetReaderWriter", func() error { sp.GetReader(); sp.GetWriter(); return nil }},
+			{"AddCleanHandler", func() error { sp.AddCleanHandler(func() error { return nil }); return nil }},
 		}
 		// the component's own I/O in flight, alternately a ReadPacket whose first Read (type byte) has
 		// returned and a WritePacket whose first Write (type byte) is done; the gate sits between that and
@@ -190,16 +220,41 @@ func newLatchRig(kind string, free bool, seed int64) *latchRig {
 			{"QueryByPrefix", func() error { _, err := st.QueryByPrefix("k", 0); return err }},
 			{"ZAdd", func() error { return st.ZAdd("z", "m", 1) }},
 			{"ZCard", func() error { _, err := st.ZCard("z"); return err }},
+			{"SetList", func() error { return st.SetList("l3", []any{"a"}, 0) }},
+			{"ZRem", func() error { return st.ZRem("z", "m") }},
+			{"ZRangeByScore", func() error { _, err := st.ZRangeByScore("z", 0, 9); return err }},
+			{"ZRemRangeByScore", func() error { _, err := st.ZRemRangeByScore("z", 0, 9); return err }},
+			{"ZScore", func() error { _, _, err := st.ZScore("z", "m"); return err }},
+			{"IncrBy", func() error { _, err := st.IncrBy("ctr2", 5); return err }},
+			{"Watch", func() error { st.Watch("k", func(any) {}); return st.Unwatch("k") }},
+			{"AddCleanHandler", func() error { st.AddCleanHandler(func() error { return nil }); return nil }},
 			{"StartStopCleanup", func() error { st.StartCleanup(2 * time.Millisecond); st.StopCleanup(); return nil }},
 			{"Close", func() error { return st.Close() }},
 		}
 	case "session":
-		sm := session.NewSessionManagerWithConfig(nil, ctx, &session.SessionConfig{
+		sm := session.NewSessionManagerWithConfig(idgen.NewIDManager(storage.NewMemoryStorage(ctx), ctx), ctx, &session.SessionConfig{
 			HeartbeatTimeout: time.Hour, CleanupInterval: 2 * time.Millisecond, MaxConnections: 10, MaxControlConnections: 10})
 		sm.AddCleanHandler(r.handler("h1"))
 		sm.AddCleanHandler(r.handler("h2"))
+		// connections that exist before the shutdown: a raw one, a control one, a tunnel one
+		pre := newMemConn("pre")
+		preID := ""
+		if sc, err := sm.AcceptConnection(pre, pre); err == nil {
+			preID = sc.ID
+			sm.RegisterControlConnection(session.NewControlConnection(preID, sc.Stream, pre.RemoteAddr(), "tcp"))
+		}
+		pre2 := newMemConn("pre2")
+		if sc, err := sm.AcceptConnection(pre2, pre2); err == nil {
+			sm.RegisterTunnelConnection(session.NewTunnelConnection(sc.ID, sc.Stream, pre2.RemoteAddr(), "tcp"))
+		}
+		r.unblock = func() { pre.Close(); pre2.Close() }
 		r.closeFn = func() { sm.Close() }
 		r.add = sm.AddCleanHandler
+		pkt := func(t packet.Type, payload string, cmd *packet.CommandPacket) *packet.TransferPacket {
+			return &packet.TransferPacket{PacketType: t, Payload: []byte(payload), CommandPacket: cmd}
+		}
+		hs := `{"client_id":12345678,"token":"x","version":"1","protocol":"tcp","connection_type":"control"}`
+		to := `{"tunnel_id":"t-1","mapping_id":"pm-1","secret_key":"k"}`
 		r.ops = []opSpec{
 			{"IsClosed", func() error {
 				if sm.IsClosed() {
@@ -207,8 +262,76 @@ func newLatchRig(kind string, free bool, seed int64) *latchRig {
 				}
 				return nil
 			}},
-			{"CloseConnection", func() error { return sm.CloseConnection("nope") }},
-			{"GetStreamManager", func() error { sm.GetStreamManager(); return nil }},
+			// a listener that is still accepting hands over a new connection
+			{"AcceptConnection", func() error { c := newMemConn("late"); defer c.Close(); _, err := sm.AcceptConnection(c, c); return err }},
+			{"CreateConnection", func() error { c := newMemConn("late"); defer c.Close(); _, err := sm.CreateConnection(c, c); return err }},
+			{"AcceptThenClose", func() error {
+				c := newMemConn("late")
+				defer c.Close()
+				sc, err := sm.AcceptConnection(c, c)
+				if err != nil {
+					return err
+				}
+				return sm.CloseConnection(sc.ID)
+			}},
+			{"RegisterControlConnection", func() error {
+				c := newMemConn("late")
+				defer c.Close()
+				sm.RegisterControlConnection(session.NewControlConnection("late-ctl", stream.NewStreamProcessor(c, c, ctx), c.RemoteAddr(), "tcp"))
+				return nil
+			}},
+			{"RegisterTunnelConnection", func() error {
+				c := newMemConn("late")
+				defer c.Close()
+				sm.RegisterTunnelConnection(session.NewTunnelConnection("late-tun", stream.NewStreamProcessor(c, c, ctx), c.RemoteAddr(), "tcp"))
+				return nil
+			}},
+			{"UpdateControlConnectionAuth", func() error { return sm.UpdateControlConnectionAuth(preID, 12345678, "u") }},
+			{"UpdateTunnelConnectionAuth", func() error { return sm.UpdateTunnelConnectionAuth(preID, "t-1", "pm-1") }},
+			{"UpdateConnectionState", func() error { return sm.UpdateConnectionState(preID, types.StateConnected) }},
+			{"CloseConnection:pre", func() error { return sm.CloseConnection(preID) }},
+			{"CloseConnection:unknown", func() error { return sm.CloseConnection("nope") }},
+			{"RemoveControlConnection", func() error { sm.RemoveControlConnection(preID); return nil }},
+			{"RemoveTunnelConnection", func() error { sm.RemoveTunnelConnection(preID); return nil }},
+			{"KickOldControlConnection", func() error { sm.KickOldControlConnection(12345678, "other"); return nil }},
+			{"MarkTunnelClosed", func() error { sm.MarkTunnelClosed("t-1"); sm.IsTunnelClosed("t-1"); return nil }},
+			{"GetConnection", func() error { sm.GetConnection(preID); sm.ListConnections(); sm.GetActiveConnections(); sm.GetActiveChannels(); return nil }},
+			{"GetConnectionStats", func() error { sm.GetConnectionStats(); return nil }},
+			{"GetControlConnection", func() error {
+				sm.GetControlConnection(preID)
+				sm.GetControlConnectionByClientID(12345678)
+				sm.GetClientIDByConnectionID(preID)
+				sm.GetTunnelConnectionByConnID(preID)
+				sm.GetTunnelConnectionByTunnelID("t-1")
+				return nil
+			}},
+			{"NotifyClientUpdate", func() error { sm.NotifyClientUpdate(12345678); return nil }},
+			{"DeliverCommandResponse", func() error { sm.DeliverCommandResponse("c-1", &packet.CommandPacket{CommandId: "c-1"}); return nil }},
+			{"SendCommandToClient", func() error {
+				_, err := sm.SendCommandToClient(ctx, 12345678, &packet.CommandPacket{CommandType: packet.ConfigGet, CommandId: "c-2"}, 20*time.Millisecond)
+				return err
+			}},
+			{"SetEventBus", func() error { return sm.SetEventBus(events.NewEventBus(ctx)) }},
+			// packets of every kind, on a connection that existed before the shutdown and on an unknown one
+			{"HandlePacket:nil", func() error { return sm.HandlePacket(nil) }},
+			{"HandlePacket:Heartbeat:pre", func() error { return sm.ProcessPacket(preID, pkt(packet.Heartbeat, "", nil)) }},
+			{"HandlePacket:Heartbeat:new", func() error { return sm.ProcessPacket("nope", pkt(packet.Heartbeat, "", nil)) }},
+			{"HandlePacket:Handshake:pre", func() error { return sm.ProcessPacket(preID, pkt(packet.Handshake, hs, nil)) }},
+			{"HandlePacket:Handshake:new", func() error { return sm.ProcessPacket("nope", pkt(packet.Handshake, hs, nil)) }},
+			{"HandlePacket:Handshake:garbage", func() error { return sm.ProcessPacket(preID, pkt(packet.Handshake, "{", nil)) }},
+			{"HandlePacket:TunnelOpen:pre", func() error { return sm.ProcessPacket(preID, pkt(packet.TunnelOpen, to, nil)) }},
+			{"HandlePacket:TunnelOpen:new", func() error { return sm.ProcessPacket("nope", pkt(packet.TunnelOpen, to, nil)) }},
+			{"HandlePacket:JsonCommand:pre", func() error {
+				return sm.ProcessPacket(preID, pkt(packet.JsonCommand, "", &packet.CommandPacket{CommandType: packet.HeartbeatCmd, CommandId: "c-3"}))
+			}},
+			{"HandlePacket:JsonCommand:new", func() error {
+				return sm.ProcessPacket("nope", pkt(packet.JsonCommand, "", &packet.CommandPacket{CommandType: packet.ConfigGet, CommandId: "c-4"}))
+			}},
+			{"HandlePacket:JsonCommand:nocmd", func() error { return sm.ProcessPacket(preID, pkt(packet.JsonCommand, "", nil)) }},
+			{"HandlePacket:CommandResp:pre", func() error {
+				return sm.ProcessPacket(preID, pkt(packet.CommandResp, "", &packet.CommandPacket{CommandType: packet.ConfigGet, CommandId: "c-5"}))
+			}},
+			{"HandlePacket:TunnelData:pre", func() error { return sm.ProcessPacket(preID, pkt(packet.TunnelData, "xx", nil)) }},
 			{"Close", func() error { return sm.Close() }},
 		}
 	case "mapping":
@@ -232,6 +355,18 @@ func newLatchRig(kind string, free bool, seed int64) *latchRig {
 			}},
 			{"Stop", func() error { h.Stop(); return nil }},
 			{"GetTunnelManager.Close", func() error { return h.GetTunnelManager().Close() }},
+			{"Start", func() error { return h.Start() }},
+			{"GetTunnelManager.RegisterTunnel", func() error {
+				t := tunnel.NewTunnel(&tunnel.TunnelConfig{ID: "late", Manager: h.GetTunnelManager()})
+				if err := h.GetTunnelManager().RegisterTunnel(t); err != nil {
+					return err
+				}
+				h.GetTunnelManager().CloseAll()
+				return nil
+			}},
+			{"GetTunnelManager.OnTunnelClosed", func() error { h.GetTunnelManager().OnTunnelClosed("nope", "pm-1", "x", 0, 0, 0); return nil }},
+			{"SendTunnelCloseNotify", func() error { return h.SendTunnelCloseNotify(9, "t", "pm-1", "x") }},
+			{"Accessors", func() error { h.GetMappingID(); h.GetProtocol(); h.GetConfig(); h.GetContext(); return nil }},
 		}
 	default:
 		panic("kind " + kind)
@@ -312,8 +447,11 @@ func (r *latchRig) finish(withOps bool) *fw.Trace {
 		}
 	}
 	if withOps {
+		good := goodOps(r.kind)
 		for _, o := range r.ops {
-			r.runOp(o.name, o.fn)
+			if good[o.name] {
+				r.runOp(o.name, o.fn)
+			}
 		}
 	}
 	r.quiesce(r.kind, false, 0)
@@ -321,18 +459,65 @@ func (r *latchRig) finish(withOps bool) *fw.Trace {
 	return r.trace(r.kind, true)
 }
 
-// opNames lists the operations of a component kind (from a throw-away instance).
+// opNames lists the operations of a component kind that say something about Close: every operation is first
+// tried on an instance that is NOT closed; one that panics there as well (a dependency the rig does not
+// configure) is left out everywhere. Operations that merely block on an open instance (reads) stay.
+var (
+	opsMu   sync.Mutex
+	opsGood = map[string]map[string]bool{}
+)
+
+func goodOps(kind string) map[string]bool {
+	opsMu.Lock()
+	defer opsMu.Unlock()
+	if g, ok := opsGood[kind]; ok {
+		return g
+	}
+	g := map[string]bool{}
+	probe := newLatchRig(kind, true, 0)
+	var names []string
+	for _, o := range probe.ops {
+		names = append(names, o.name)
+	}
+	probe.closeFn()
+	if probe.unblock != nil {
+		probe.unblock()
+	}
+	probe.cancel()
+	for _, name := range names {
+		ctl := newLatchRig(kind, true, 0)
+		for _, o := range ctl.ops {
+			if o.name != name {
+				continue
+			}
+			done := make(chan string, 1)
+			go func() { _, what := quiet(func() { o.fn() }); done <- what }()
+			what := ""
+			select {
+			case what = <-done:
+			case <-time.After(60 * time.Millisecond): // blocks while the component is open: fine
+			}
+			g[name] = what == ""
+		}
+		ctl.closeFn()
+		if ctl.unblock != nil {
+			ctl.unblock()
+		}
+		ctl.cancel()
+	}
+	opsGood[kind] = g
+	return g
+}
+
 func opNames(kind string) []string {
-	r := newLatchRig(kind, true, 0)
+	g := goodOps(kind)
 	var out []string
-	for _, o := range r.ops {
-		out = append(out, o.name)
+	for n, ok := range g {
+		if ok {
+			out = append(out, n)
+		}
 	}
-	r.closeFn()
-	if r.unblock != nil {
-		r.unblock()
-	}
-	r.cancel()
+	sort.Strings(out)
 	return out
 }
 
